@@ -61,7 +61,7 @@ Proof. exact full_signer_never_punished. Qed.
 Print Assumptions C15_full_signer_never_punished.
 
 Theorem C15_rank_streak_nonneg :
-  forall cfg ops s, cfg_ok cfg -> nonneg s -> nonneg (run cfg s ops).
+  forall ops cfg s, cfgs_ok cfg ops -> nonneg s -> nonneg (run cfg s ops).
 Proof. exact rank_streak_nonneg. Qed.
 Print Assumptions C15_rank_streak_nonneg.
 
@@ -95,7 +95,7 @@ Print Assumptions C15_owner_pause_unpause_edges.
    validator jailed inside the unjail window can no longer be released by an unjail proposal. *)
 Theorem C15_unjail_lost_by_genesis_import_and_rotation :
   snd (step cfg0 s_jailed1 (OUnjail 1)) = ROk /\
-  snd (step cfg0 (fst (step cfg0 s_jailed1 OGenesis)) (OUnjail 1)) = RRej /\
+  snd (step cfg0 (fst (step cfg0 s_jailed1 (OGenesis []))) (OUnjail 1)) = RRej /\
   snd (step cfg0 (fst (step cfg0 s_jailed1 (ORotate 1 5))) (OUnjail 5)) = RRej /\
   status_at (fst (step cfg0 s_jailed1 (ORotate 1 5))) 5 = Some SJailed.
 Proof. exact unjail_lost_by_genesis_and_rotation. Qed.
@@ -108,3 +108,13 @@ Example C15_nonvacuous_downtime :
   exists s', misses cfg0 s_three 1 2 = Some s' /\ status_at s' 1 = Some SInactive /\
   exists s1, misses cfg0 s_three 1 1 = Some s1 /\ status_at s1 1 = Some SActive.
 Proof. eexists. split; [vm_compute; reflexivity|]. split; [vm_compute; reflexivity|]. eexists. split; vm_compute; reflexivity. Qed.
+
+(* settings may change between blocks (SetNetworkProperty proposals): every theorem above holds for the
+   settings in force at the step, and the run functions thread them ([next_cfg]); example: *)
+Example C15_lowered_max_mischance_applies_at_next_miss :
+  let miss := [ONewBlock 5; OVotes [(0, true); (1, false); (2, true)]; OEndBlock] in
+  let s3 := run cfg_loose s_three (miss ++ miss ++ miss) in
+  status_at s3 1 = Some SActive /\
+  status_at (run cfg_loose s3 (OSetProp 1 1 true :: miss)) 1 = Some SInactive /\
+  status_at (run cfg_loose s3 (OSetProp 1 1 false :: miss)) 1 = Some SActive.
+Proof. exact lowered_max_mischance_applies_at_next_miss. Qed.
